@@ -16,7 +16,7 @@ macro_rules! belt_core_case {
             let s0 = spec::belt_s0(c.p(), &iv);
             let mut ks = [0u8; NB * B];
             spec::belt_ks(c.p(), s0, pos, &mut ks);
-            let mut ks2 = [0u8; 2 * B];
+            let mut ks2 = [0u8; 3 * B];
             spec::belt_ks(c.p(), s0, pos.wrapping_add(NB as u128), &mut ks2);
             let mut core = belt_ctr::BeltCtrCore::inner_iv_init(c.clone(), blk::<U16>(&iv));
             assert!(core.get_block_pos() == 0);
@@ -40,7 +40,7 @@ macro_rules! belt_core_case {
             }
             assert!(core.get_block_pos() == pos + NB as u128);
             // single-block core API: in place, then buffer-to-buffer into a dirty block
-            if pos <= u128::MAX - NB as u128 - 3 {
+            if pos <= u128::MAX - NB as u128 - 4 {
                 let one: [u8; B] = kani::any();
                 let mut b1 = one;
                 core.apply_keystream_block_inout(blk_mut::<U16>(&mut b1).into());
@@ -52,7 +52,14 @@ macro_rules! belt_core_case {
                     assert!(out[j] == one[j] ^ ks2[B + j], "apply_keystream_block_inout (buffer to buffer) differs");
                     j += 1;
                 }
-                assert!(core.get_block_pos() == pos + NB as u128 + 2);
+                let mut raw = [0u8; B];
+                core.write_keystream_block(blk_mut::<U16>(&mut raw));
+                let mut j = 0;
+                while j < B {
+                    assert!(raw[j] == ks2[2 * B + j], "write_keystream_block differs");
+                    j += 1;
+                }
+                assert!(core.get_block_pos() == pos + NB as u128 + 3);
             }
             kani::cover!(true);
             kani::cover!(s0 > u128::MAX - 2 && pos == 0); // s wraps through 2^128 inside the run
